@@ -76,14 +76,28 @@ func (tm *typesMap) TypeString(typ types.Type) string {
 }
 
 func (tm *typesMap) FieldStrings(fields []*types.Var) ([]string, error) {
-	strct := types.NewStruct(fields, nil)
-	strctStr, err := format.Source([]byte("var a " + tm.TypeString(strct)))
+	if len(fields) == 0 {
+		return nil, nil
+	}
+	// Every field is written on its own line, since gofmt keeps a struct with a single field on one line.
+	buf := bytes.NewBufferString("var a struct {\n")
+	for _, field := range fields {
+		if !field.Embedded() {
+			buf.WriteString(field.Name() + " ")
+		}
+		buf.WriteString(tm.TypeString(field.Type()) + "\n")
+	}
+	buf.WriteString("}\n")
+	strctStr, err := format.Source(buf.Bytes())
 	if err != nil {
 		return nil, err
 	}
-	strctLines := bytes.Split(strctStr, []byte{'\n'})
-	ss := make([]string, len(strctLines)-2)
-	for i := range strctLines[1 : len(strctLines)-1] {
+	strctLines := bytes.Split(bytes.TrimSpace(strctStr), []byte{'\n'})
+	if len(strctLines) != len(fields)+2 {
+		return nil, fmt.Errorf("could not format the fields of struct {%s}", bytes.Join(strctLines, []byte("; ")))
+	}
+	ss := make([]string, len(fields))
+	for i := range ss {
 		ss[i] = string(bytes.TrimSpace(strctLines[i+1]))
 	}
 	return ss, nil
